@@ -197,7 +197,10 @@ _GA_PW = {"gauss_approximation_pointwise", "gauss_approximation_pointwise_errors
 
 
 def cost_family(cid):
-    """-> (family, variant): chi2/{cov,pw,none}, nll/{poisson,gauss}, nllr/{...}, ga/{cov,pw}"""
+    """-> (family, variant): chi2/{cov,pw,none,cov-nodet}, nll/{poisson,gauss}, nllr/{...}, ga/{cov,pw}
+    'chi2:nodet' is a cost OBJECT built with add_determinant_cost=False (no identifier exists for it)"""
+    if cid == "chi2:nodet":
+        return ("chi2", "cov-nodet")
     if cid in _CHI2_COV or cid in _CHI2_COV_FAST:
         return ("chi2", "cov")
     if cid in ("chi2_pointwise", "chi2_pointwise_errors"):
@@ -243,6 +246,8 @@ def core_cost(cid, d, m, V, implicit_no_errors=False):
         if var == "cov":
             sign, logdet = np.linalg.slogdet(V)
             return float(r.dot(np.linalg.inv(V)).dot(r)) + logdet, logdet
+        if var == "cov-nodet":
+            return float(r.dot(np.linalg.inv(V)).dot(r)), 0.0
         s2 = np.diag(V)
         det = float(np.sum(np.log(s2)))
         return float(np.sum(r**2 / s2)) + det, det
